@@ -229,11 +229,17 @@ class _Inliner:
         self.scopes = _scopes(tree)
         # helpers: new private functions
         self.helpers: Dict[Tuple[Optional[str], str], ast.AST] = {}
+        self.nested: Dict[Tuple[str, str], ast.AST] = {}
+        self.cur_q = ''
+        self.cur_fn = None
         for q, fn, cls, _ in self.scopes:
             if q in self.known or isinstance(fn, ast.AsyncFunctionDef):
                 continue
             if '.' in q and cls is None:
-                continue            # nested function of a function: it is already part of its parent
+                # a new closure defined inside a function: callable by name from its parent only
+                if self._eligible(fn):
+                    self.nested[(q.rsplit('.', 1)[0], fn.name)] = fn
+                continue
             if not fn.name.startswith('_') or (fn.name.startswith('__') and fn.name.endswith('__')) or fn.name.startswith('_yatiml'):
                 continue
             if not self._eligible(fn):
@@ -264,6 +270,8 @@ class _Inliner:
     # ---- resolving a call to a helper ---------------------------------------------------------------------------
     def _callee(self, call: ast.Call, caller_cls: Optional[str], caller_self: Optional[str]):
         f = call.func
+        if isinstance(f, ast.Name) and (self.cur_q, f.id) in self.nested:
+            return self.nested[(self.cur_q, f.id)], None
         if isinstance(f, ast.Name) and (None, f.id) in self.helpers:
             return self.helpers[(None, f.id)], None
         if isinstance(f, ast.Attribute) and isinstance(f.value, ast.Name) and caller_cls is not None:
@@ -312,6 +320,10 @@ class _Inliner:
             a = args[p]
             if _simple_arg(a) and p not in stored:
                 mapping[p] = a
+            elif isinstance(a, ast.Name) and p in stored and self._dead_after(a.id, call):
+                # the helper re-binds its parameter; the caller's variable is not read again after the call, so the helper may
+                # just as well work on that variable (this is what the code looked like before the helper was extracted)
+                rename[p] = a.id
             else:
                 rename[p] = p + suf
                 pre.append(ast.copy_location(ast.Assign([ast.Name(p + suf, ast.Store())], copy.deepcopy(a), lineno=call.lineno), call))
@@ -319,6 +331,22 @@ class _Inliner:
             if v not in rename and v not in params:
                 rename[v] = v + suf
         return pre, mapping, rename
+
+    def _dead_after(self, name: str, call: ast.Call) -> bool:
+        fn = self.cur_fn
+        if fn is None:
+            return False
+        line = getattr(call, 'end_lineno', None) or getattr(call, 'lineno', 0)
+        in_loop = False
+        for n in ast.walk(fn):
+            if isinstance(n, (ast.For, ast.While)) and any(x is call for x in ast.walk(n)):
+                in_loop = True
+        if in_loop:
+            return False
+        for n in ast.walk(fn):
+            if isinstance(n, ast.Name) and n.id == name and isinstance(n.ctx, ast.Load) and getattr(n, 'lineno', 0) > line:
+                return False
+        return True
 
     def _body(self, g) -> List[ast.stmt]:
         return [st for st in g.body if not (isinstance(st, ast.Expr) and isinstance(st.value, ast.Constant) and isinstance(st.value.value, str))]
@@ -485,13 +513,15 @@ class _Inliner:
         return out
 
     def run(self) -> List[str]:
-        if not self.helpers:
+        if not self.helpers and not self.nested:
             return self.log
         for _ in range(4):
             self.changed = False
             for q, fn, cls, _c in _scopes(self.tree):
                 caller_self = fn.args.args[0].arg if cls is not None and fn.args.args and not any(
                     isinstance(d, ast.Name) and d.id == 'staticmethod' for d in fn.decorator_list) else None
+                self.cur_q = q
+                self.cur_fn = fn
                 fn.body = self._process_block(fn.body, cls.name if cls is not None else None, caller_self)
             if not self.changed:
                 break
@@ -514,6 +544,16 @@ class _Inliner:
                         if not container:
                             container.append(ast.Pass())
                         self.log.append('%s: helper %s inlined into its callers' % (self.modname, q))
+        for (pq, name), g in list(self.nested.items()):
+            for q, fn, cls, container in _scopes(self.tree):
+                if fn is g:
+                    parent = [f2 for q2, f2, _, _ in _scopes(self.tree) if q2 == pq]
+                    refs = sum(1 for p_ in parent for n in ast.walk(p_) if isinstance(n, ast.Name) and n.id == name and isinstance(n.ctx, ast.Load))
+                    if refs == 0:
+                        container.remove(g)
+                        if not container:
+                            container.append(ast.Pass())
+                        self.log.append('%s: closure %s inlined into %s' % (self.modname, name, pq))
         return self.log
 
 
